@@ -10,6 +10,9 @@ func HCodecRoundTrip() {
 	m := VGenMessage(1, tier)
 	want := len(m.Payloads)
 	b, err := m.Encode()
+	if err == nil {
+		vr.Output("c03.encoding", b) // translation validation: the engine's octets must equal the native ones
+	}
 	vr.Assert("c03.encode.noerr", err == nil)
 	if err != nil {
 		return
